@@ -41,7 +41,9 @@ def run_check(prop: str, tier: str, root: str, overlay=None, quiet=False, write=
             traceback.print_exc()
     apply_known(ctx.obligations, load_known())
     if not write:
-        return (2 if err else (1 if any(o.status == "violated" and not o.finding for o in ctx.obligations) else 0)), ctx
+        viol = any(o.status == "violated" and not o.finding for o in ctx.obligations)
+        unrec = any(o.status == "unrecognised" for o in ctx.obligations)
+        return (1 if viol else (2 if err or unrec else 0)), ctx
     extra = {}
     if tier == "thorough" and err is None and hasattr(mod, "selftest"):
         try:
